@@ -230,3 +230,7 @@ def run(ck):
 # session 5 (round 9, D24)
 EXPLANATION = EXPLANATION + " " + (
     'ORDER/arm-store-before-suspend: deflate() stores the initial check value of the Init arm before the arm can suspend on a full output buffer.')
+
+# session 5 (round 10)
+EXPLANATION = EXPLANATION + " " + (
+    'SIB/extend-fold (shared with C08): every branch of Window::extend keeps the same part of a slice longer than the window (the tail), so a long dictionary is the same on both sides.')
